@@ -1,7 +1,7 @@
 import GqlProofs.ValSpec.ReachSpec
 /-
   C09, the `var=` part of the demands: every variable use of the document has an event that shows a
-  definition among the candidates `Spec.valueLinks` admits for it — for a use written in an
+  definition among the candidates `Spec.valueLinks` allows for it — for a use written in an
   operation the definition of that name of that operation; for a use written in a fragment
   definition a definition of that name of an operation in whose scope the fragment lies (when no
   such operation declares the name, `linkscheck` does not judge the link).
